@@ -161,8 +161,9 @@ def run(ctx):
         if r["vec"]["id"].startswith("topa-gate") and any(x.get("timeout") for x in r["obs"].get("runs", [])):
             raise Machinery("gated toPairAlign run timed out: %s" % r["id"])
     # (4) race detector on the in-process pipelines
-    if not quick:
-        race_check(ctx, [v for v in vecs if v["N"] <= 60][:80])
+    # quick: a few jittered runs of every command under the race detector; thorough: 80 of them + the -race binary
+    racevecs = [v for v in vecs if v["N"] <= 60 and v.get("mode") == "jitter"]
+    race_check(ctx, racevecs[:80] if not quick else [v for v in racevecs if v["N"] == 6][:14] + [v for v in racevecs if v["N"] > 6][:8])
     reordered = 0
     for r in rows:
         ctx.evaluations += 1
